@@ -747,8 +747,14 @@ func (s *Server) handlePAP(session *Session, data []byte) {
 		session.SetState(StateIPCPNegotiation)
 		s.startIPCPNegotiation(session)
 	} else {
-		// Terminate
+		// Terminate: a session whose login was rejected is over. Give back
+		// the address it may hold from an earlier successful login and remove
+		// it, instead of leaving it in the table until the idle cleanup.
 		session.SetState(StateClosed)
+		if s.clientIPPool != nil {
+			s.clientIPPool.Release(session.SessionID)
+		}
+		s.sessions.RemoveSession(session.ID)
 	}
 }
 
